@@ -16,9 +16,22 @@
                        of allow_singularity), P > 0, every |k_i|^2 < 1, every lower order returns with P_q > 0
      levinson_stable   ... and every root z of the prediction polynomial (in the field) has |z|^2 < 1
                        (instances over extension fields / Coquelicot's C: see C12 aryule_stable_ext / _complex)
+   PROVED (abstract ORDERED *-field; Proofs/LevinsonPDConverse.v — the LDL^H reading of the recursion with the backward
+   predictor: c^H T_m c = c''^H T_(m-1) c'' + |c_m|^2 P_m):
+     levinson_pd_converse     LEVINSON returned (a, P, k) (either value of allow_singularity) and every stage error
+                              r0 * prod_(i<q)(1-|k_i|^2), q = 0..p, is > 0   =>   r is positive definite (order p)
+     levinson_pd_iff          LEVINSON returns with every stage error > 0  <=>  r is positive definite (order p)
+     levinson_returns_iff_pd  r0 > 0:  LEVINSON(r, p) with allow_singularity=False returns  <=>  r positive definite
+                              (the code's own "P <= 0" tests are exactly a positive-definiteness test)
+     levinson_not_pd_raises   r0 > 0 and r NOT positive definite  =>  LEVINSON raises "singular matrix" unless
+                              singularity is allowed  (the property's clause; DESIGN.md stretch item)
+     levinson_allow_returns   ... and with allow_singularity=True it returns for every r and every order <= len(r)-1
+                              The guard r0 > 0 is needed: r = [-1, 2] is not positive definite, yet P_1 = -1*(1-4) = 3 > 0
+                              and the recursion returns (Example levinson_negative_r0_returns; the implementation does
+                              the same).  r0 <= 0 is outside the property's quantifier (autocorrelation sequences).
    NOT PROVED: the CHOLESKY solvers (numpy/scipy library back ends: residual search only). *)
 Require Import Spectrum.Theory.Ops Spectrum.Theory.Sum Spectrum.Theory.Vec Spectrum.Model.Levinson
-               Spectrum.Proofs.LevinsonTheory Spectrum.Proofs.HermtoepTheory Spectrum.Proofs.ToeplitzTheory Spectrum.Theory.Order Spectrum.Proofs.YulePD Spectrum.Proofs.LevinsonPD
+               Spectrum.Proofs.LevinsonTheory Spectrum.Proofs.HermtoepTheory Spectrum.Proofs.ToeplitzTheory Spectrum.Theory.Order Spectrum.Proofs.YulePD Spectrum.Proofs.LevinsonPD Spectrum.Proofs.LevinsonPDConverse
                Spectrum.Instances.QcC Spectrum.Instances.QcCOrd.
 From Coq Require Import QArith Qcanon.
 
@@ -97,6 +110,40 @@ Theorem levinson_stable (r : list F) (p : nat) (allow : bool) a P k (z : F) :
   levinson r p allow = Some (a, P, k) ->
   sumf (S p) (fun j => afun a j * fpow z (p - j)) = 0 -> lt (nrm2 z) 1.
 Proof. exact (levinson_stable_thm r p allow a P k z). Qed.
+
+Theorem levinson_pd_converse (r : list F) (p : nat) (allow : bool) a P k :
+  isreal (nthF r O) ->
+  levinson r p allow = Some (a, P, k) ->
+  (forall q, (q <= p)%nat -> pos (nthF r O * prodk (firstn q k))) ->
+  forall c : nat -> F, (exists i, (i <= p)%nat /\ c i <> 0) ->
+    pos (sumf (S p) (fun i => sumf (S p) (fun j => conj (c i) * rz r (Z.of_nat i - Z.of_nat j) * c j))).
+Proof. exact (levinson_pd_converse_thm r p allow a P k). Qed.
+
+Theorem levinson_pd_iff (r : list F) (p : nat) (allow : bool) :
+  isreal (nthF r O) -> (p <= length r - 1)%nat ->
+  ((exists a P k, levinson r p allow = Some (a, P, k)
+                  /\ forall q, (q <= p)%nat -> pos (nthF r O * prodk (firstn q k)))
+   <-> (forall c : nat -> F, (exists i, (i <= p)%nat /\ c i <> 0) ->
+          pos (sumf (S p) (fun i => sumf (S p) (fun j => conj (c i) * rz r (Z.of_nat i - Z.of_nat j) * c j))))).
+Proof. exact (levinson_pd_iff_thm r p allow). Qed.
+
+Theorem levinson_returns_iff_pd (r : list F) (p : nat) :
+  isreal (nthF r O) -> (p <= length r - 1)%nat -> pos (nthF r O) ->
+  ((exists a P k, levinson r p false = Some (a, P, k))
+   <-> (forall c : nat -> F, (exists i, (i <= p)%nat /\ c i <> 0) ->
+          pos (sumf (S p) (fun i => sumf (S p) (fun j => conj (c i) * rz r (Z.of_nat i - Z.of_nat j) * c j))))).
+Proof. exact (levinson_returns_iff_pd_thm r p). Qed.
+
+Theorem levinson_not_pd_raises (r : list F) (p : nat) :
+  isreal (nthF r O) -> (p <= length r - 1)%nat -> pos (nthF r O) ->
+  ~ (forall c : nat -> F, (exists i, (i <= p)%nat /\ c i <> 0) ->
+       pos (sumf (S p) (fun i => sumf (S p) (fun j => conj (c i) * rz r (Z.of_nat i - Z.of_nat j) * c j)))) ->
+  levinson r p false = None.
+Proof. exact (levinson_not_pd_raises_thm r p). Qed.
+
+Theorem levinson_allow_returns (r : list F) (p : nat) : (p <= length r - 1)%nat ->
+  exists a P k, levinson r p true = Some (a, P, k).
+Proof. exact (levinson_allow_returns_thm r p). Qed.
 End C10_order.
 
 (* non-vacuity: a concrete complex positive-definite sequence meets the hypotheses and the
@@ -108,6 +155,26 @@ Proof. vm_compute. do 3 eexists. split; reflexivity. Qed.
 Example levinson_raises_example :
   @levinson _ qcc_ops [cz (1,0) (0,0); cz (2,0) (0,0)]%Z 1 false = None.
 Proof. vm_compute. reflexivity. Qed.
+
+(* the guard r0 > 0 of levinson_returns_iff_pd / levinson_not_pd_raises is needed: with r0 < 0 a stage error can turn
+   positive again and the recursion returns on a sequence that is not positive definite *)
+Example levinson_negative_r0_returns :
+  exists a P k, @levinson _ qcc_ops [cz (-1,0) (0,0); cz (2,0) (0,0)]%Z 1 false = Some (a, P, k).
+Proof. vm_compute. do 3 eexists. reflexivity. Qed.
+(* the indefinite example above, through the theorem: it raises BECAUSE the form is not positive definite *)
+Example levinson_not_pd_example :
+  ~ (forall c : nat -> QcC, (exists i, (i <= 1)%nat /\ c i <> zero (Ops:=qcc_ops)) ->
+       pos (OF:=qcc_ops) (OL:=qcc_ord) (sumf (OF:=qcc_ops) 2 (fun i => sumf (OF:=qcc_ops) 2 (fun j =>
+         mul (Ops:=qcc_ops) (mul (Ops:=qcc_ops) (conj (Ops:=qcc_ops) (c i))
+           (rz (OF:=qcc_ops) [cz (1,0) (0,0); cz (2,0) (0,0)]%Z (Z.of_nat i - Z.of_nat j))) (c j))))).
+Proof.
+  intros HPD.
+  assert (Hr : isreal (OF:=qcc_ops) (nthF (OF:=qcc_ops) [cz (1,0) (0,0); cz (2,0) (0,0)]%Z 0)) by (vm_compute; reflexivity).
+  assert (H0 : pos (OF:=qcc_ops) (OL:=qcc_ord) (nthF (OF:=qcc_ops) [cz (1,0) (0,0); cz (2,0) (0,0)]%Z 0)) by exact (pos_1 (L:=qcc_laws) (OL:=qcc_ord)).
+  destruct (proj2 (levinson_returns_iff_pd (L:=qcc_laws) (OL:=qcc_ord) [cz (1,0) (0,0); cz (2,0) (0,0)]%Z 1 Hr ltac:(cbn; lia) H0) HPD)
+    as (a & P & k & E).
+  rewrite levinson_raises_example in E. discriminate.
+Qed.
 
 Example hermtoep_example :
   exists X, @hermtoep _ qcc_ops (cz (2,0)%Z (0,0)%Z) [cz (1,0) (1,-1); cz (1,-2) (-1,-1)]%Z [cz (1,0) (0,0); cz (0,0) (1,0); cz (3,0) (-1,0)]%Z = Some X.
@@ -122,3 +189,8 @@ Print Assumptions hermtoep_raises.
 Print Assumptions toeplitz_solves.
 Print Assumptions levinson_pd.
 Print Assumptions levinson_stable.
+Print Assumptions levinson_pd_converse.
+Print Assumptions levinson_pd_iff.
+Print Assumptions levinson_returns_iff_pd.
+Print Assumptions levinson_not_pd_raises.
+Print Assumptions levinson_allow_returns.
